@@ -243,7 +243,7 @@ def run(report, index, tier):
 
     # R12.2 ---------------------------------------------------------------
     r2 = report.rule('R12.2', 'believed-nullable values are dereferenced '
-                     'only under a dominating guard', floor=20)
+                     'only under a dominating guard', floor=8)
     linit = need_function(lm, '__init__', 'Lexer')
     none_fields = set()
     for n in ast.walk(linit):
@@ -496,6 +496,30 @@ def run(report, index, tier):
                 r3.ok(construct, 'triaged: the pattern only requires the '
                       'backslash and escape letter that the preceding '
                       'lookup (R12.3 dict rule) already demands')
+    # R12.5 ---------------------------------------------------------------
+    from .shared import models
+    from engine.actions import Slot
+    M = models(index)
+    r5 = report.rule('R12.5', 'parser actions iterate / splice only values '
+                     'that are lists on that path', floor=8)
+    for oc in M.actions.all_outcomes():
+        for v, lineno, what in oc.iter_uses:
+            if not isinstance(v, Slot):
+                r5.ok('%s: %s of a list built in the action' % (
+                    oc.prod.func, what))
+                continue
+            ks = M.printer.kinds(v)
+            bad = sorted(k[0] if k[0] != 'node' else k[1] for k in ks
+                         if k[0] != 'list')
+            r5.check(not bad, '%s %s p[%d]' % (oc.prod.func, what, v.idx),
+                     '%s: %s on p[%d]:%s' % (oc.prod.text, what, v.idx,
+                                             v.sym),
+                     'p[%d] (%s) can be %s on this path (%s): %s raises '
+                     'TypeError instead of a syntax error / a tree' % (
+                         v.idx, v.sym, '/'.join(bad),
+                         oc.conds or 'unconditional', what),
+                     where='parsers/es5.py:%s (line %s)' % (oc.prod.func,
+                                                            lineno))
     from .c06 import line_index_rule
     line_index_rule(report, index, 'R12.4')
     report.not_decided += [
